@@ -952,6 +952,12 @@ MiniOutcome tw_run_t(const J& c) {
         fresh.cleanup();
         o.counters["differential_runs"] = 1;
     }
+    // every registration object was destroyed: the catalogs must be empty
+    if (!P::classes.empty() || !P::methods.empty()) {
+        viols.push_back({"C18", "residue",
+                         "a catalog is not empty after every registration object was destroyed"});
+        o.poisoned = true;
+    }
     std::uint64_t others = 0;
     for (auto& v : viols) {
         if (v.prop == g_tw_focus) {
